@@ -38,7 +38,7 @@ func init() {
 	}
 }
 
-var byteLayerProp = map[string]bool{"C07": true, "C01": true, "C03": true, "C08": true, "C09": true, "C10": true, "C13": true}
+var byteLayerProp = map[string]bool{"C01": true, "C02": true, "C03": true, "C05": true, "C06": true, "C07": true, "C08": true, "C09": true, "C10": true, "C12": true, "C13": true, "C14": true, "C15": true, "C16": true, "C17": true}
 
 var replayCache = map[string][]map[string]interface{}{}
 
